@@ -225,17 +225,14 @@ func (fc *FnCtx) cellNamed(s *State, name string, pos token.Pos) *Cell {
 			}
 		}
 	}
-	// the most recently declared one before pos
-	var best *Cell
+	// the most recently allocated one
+	best := live[0]
 	for _, c := range live {
-		if c.Alloc.Pos() <= pos && (best == nil || c.Alloc.Pos() > best.Alloc.Pos()) {
+		if c.id > best.id {
 			best = c
 		}
 	}
-	if best != nil {
-		return best
-	}
-	return live[len(live)-1]
+	return best
 }
 
 func (fc *FnCtx) specSel(env *Env, e *Expr) Val {
